@@ -100,25 +100,36 @@ Definition frect_contains (lo hi p : fpt) : bool :=
 Definition frect_edges (lo hi : fpt) : list (fpt * fpt) :=
   let v0 := lo in let v1 := mkfpt (fx lo) (fy hi) in let v2 := hi in let v3 := mkfpt (fx hi) (fy lo) in
   [(v0, v1); (v1, v2); (v2, v3); (v3, v0)].
-Definition f_edge_intersections (v0 v1 e0 e1 : fpt) : fl * fl :=
-  let x4 := fx v1 in let x3 := fx v0 in let x2 := fx e1 in let x1 := fx e0 in
-  let y4 := fy v1 in let y3 := fy v0 in let y2 := fy e1 in let y1 := fy e0 in
-  let divisor := fsub (fmul (fsub y4 y3) (fsub x2 x1)) (fmul (fsub x4 x3) (fsub y2 y1)) in
-  if feq divisor fzero then (finf, finf)
-  else (fdiv (fsub (fmul (fsub x2 x1) (fsub y1 y3)) (fmul (fsub y2 y1) (fsub x1 x3))) divisor,
-        fdiv (fsub (fmul (fsub x4 x3) (fsub y1 y3)) (fmul (fsub y4 y3) (fsub x1 x3))) divisor).
-Definition f_unit_contains (s : fl) : bool := fle fzero s && fle s fone.
+(* RectangleMetric::is_edge_inside after fix "rectangle queries decide edge / rectangle intersection with exact side queries":
+   exact side queries (robust::orient2d on the stored values) against the rectangle clipped to the range of valid coordinates;
+   only the collinear case still uses the floating-point projection. *)
+Definition side_sign (p1 p2 q : fpt) : Z :=
+  match exact_pnts [p1; p2; q] with
+  | [a; b; c] => Z.sgn (orient a b c)
+  | _ => 0%Z
+  end.
+Definition strictly_on_same_side (s0 s1 : Z) : bool := ((0 <? s0) && (0 <? s1))%Z || ((s0 <? 0) && (s1 <? 0))%Z.
 Definition frect_side_hit (from to v0 v1 : fpt) : bool :=
-  let '(s0, s1) := f_edge_intersections v0 v1 from to in
-  if f_is_infinite s0 then
-    if negb (side_is_on_line from to v0) then false
-    else pj_is_on_edge (f_project from to v0) || pj_is_on_edge (f_project from to v1)
-  else f_unit_contains s0 && f_unit_contains s1.
+  let q0 := side_sign from to v0 in
+  let q1 := side_sign from to v1 in
+  if (q0 =? 0)%Z && (q1 =? 0)%Z then pj_is_on_edge (f_project from to v0) || pj_is_on_edge (f_project from to v1)
+  else negb (strictly_on_same_side q0 q1) && negb (strictly_on_same_side (side_sign v0 v1 from) (side_sign v0 v1 to)).
+(* num_traits::cast::<f64, S>(MAX_ALLOWED_VALUE = 2^201) if finite in S, else S::max_value() *)
+Definition flimit : fl :=
+  if (201 <? emax)%Z then binary_normalize prec emax Hp Hm mode_NE 1 201 false
+  else binary_normalize prec emax Hp Hm mode_NE (2 ^ prec - 1) (emax - prec) false.
+Definition fneg (a : fl) : fl := Bopp a.
+Definition fmaxf (a b : fl) : fl := if flt a b then b else a.
+Definition fminf (a b : fl) : fl := if flt b a then b else a.
 Definition frect_is_edge_inside (lo hi from to : fpt) : bool :=
   if frect_is_inverted lo hi then false
   else if frect_contains lo hi from || frect_contains lo hi to then true
   else if p_eq lo hi then side_is_on_line from to lo && pj_is_on_edge (f_project from to lo)
-  else existsb (fun s => frect_side_hit from to (fst s) (snd s)) (frect_edges lo hi).
+  else if flt flimit (fx lo) || flt flimit (fy lo) || flt (fx hi) (fneg flimit) || flt (fy hi) (fneg flimit) then false
+  else
+    let clo := mkfpt (fmaxf (fx lo) (fneg flimit)) (fmaxf (fy lo) (fneg flimit)) in
+    let chi := mkfpt (fminf (fx hi) flimit) (fminf (fy hi) flimit) in
+    existsb (fun s => frect_side_hit from to (fst s) (snd s)) (frect_edges clo chi).
 Definition frect_distance_to_point (lo hi p : fpt) : fl :=
   if frect_is_inverted lo hi then finf
   else if p_eq lo hi then p_distance_2 p lo
@@ -128,7 +139,11 @@ Definition frect_distance_to_point (lo hi p : fpt) : fl :=
        | _ => B754_nan
        end.
 Definition frect_is_point_inside (lo hi p : fpt) : bool := fle (frect_distance_to_point lo hi p) fzero.
-Definition frect_center (lo hi : fpt) : fpt := p_mul (p_add lo hi) fhalf.
+(* RectangleMetric::center: the midpoint of the rectangle clipped to the range of valid coordinates *)
+Definition frect_center (lo hi : fpt) : fpt :=
+  let clo := mkfpt (fmaxf (fx lo) (fneg flimit)) (fmaxf (fy lo) (fneg flimit)) in
+  let chi := mkfpt (fminf (fx hi) flimit) (fminf (fy hi) flimit) in
+  p_mul (p_add clo chi) fhalf.
 
 (* ---- metrics over a DCEL whose vertex records carry binary64 bit patterns ---- *)
 Variable d : dcel.
